@@ -282,14 +282,24 @@ class CArr:
         self.n = len(arr)
         self._endtime = endtime
 
+    # Arrays are total functions in the logic: an out-of-range index yields an arbitrary value (0), so
+    # eagerly evaluated sub-formulas such as ``Or(r == -1, spec(arr[r]))`` do not blow up.
+    def _ok(self, j):
+        return 0 <= int(j) < self.n
+
     def at(self, j):
-        v = self.arr[int(j)]
-        return _py(v)
+        if not self._ok(j):
+            return 0
+        return _py(self.arr[int(j)])
 
     def at2(self, j, k):
+        if not self._ok(j) or not (0 <= int(k) < len(self.arr[int(j)])):
+            return 0
         return _py(self.arr[int(j)][int(k)])
 
     def f(self, field, j):
+        if not self._ok(j):
+            return 0
         j = int(j)
         if field == "endtime" and (self.arr.dtype.names is None or "endtime" not in self.arr.dtype.names):
             r = self.arr[j]
@@ -297,6 +307,8 @@ class CArr:
         return _py(self.arr[field][j])
 
     def f2(self, field, j, k):
+        if not self._ok(j) or not (0 <= int(k) < len(self.arr[field][int(j)])):
+            return 0
         return _py(self.arr[field][int(j)][int(k)])
 
     def col(self, field):
